@@ -39,8 +39,13 @@ void h_blank(void) { mk_a(); GHOST_IN(int, g_p); ASSUME(g_p >= 0 && g_p <= SPL);
   same_filter("an extra blank outside the mnemonic does not change the filtered line"); REACH("end"); }
 /* "mnemonic" against "mnemonic " (and with a tab): the filtered texts differ by the trailing
  * delimiter, the real tokenizer gives the same record */
+/* operand_tok is used through a contract that may never be called: an operand-less line has no operands */
+int operand_tok__never(struct instr *instr_buffer, char *opds, int opd_pos)
+  __CPROVER_requires(0)
+  __CPROVER_assigns();
 void h_blank_after_mnemonic(void) {
   static char M1[FILTERED_STR_LEN], M2[FILTERED_STR_LEN]; int n; ASSUME(n >= 1 && n <= SPL);
+  for (int i = 0; i < FILTERED_STR_LEN; i++) { M1[i] = 0; M2[i] = 0; }   /* DFCC makes statics nondeterministic */
   for (int i = 0; i < SPL; i++) { char c; ASSUME(c > ' ' && (unsigned char)c <= 0x7e && c != ','); M1[i] = i < n ? c : 0; M2[i] = M1[i]; }
   M2[n] = ' ';
   struct instr I1 = {0}, I2 = {0};
@@ -68,7 +73,7 @@ void h_skip(void) { mk_a(); _Bool kind; GHOST_IN(int, g_p); ASSUME(g_p >= 1 && g
   CHECK(rc == EXIT_SUCCESS && I.key == SKIP, "label and blank lines are skipped without error");
   CHECK(len == SPL, "the whole line is consumed"); REACH("end"); }
 void h_skip_directive(void) {
-  static char L1[] = "  Section .text ; x\n", L2[] = "GLOBAL test\r\n", L3[] = "section .data", L4[] = "\n";
+  char L1[] = "  Section .text ; x\n", L2[] = "GLOBAL test\r\n", L3[] = "section .data", L4[] = "\n";   /* automatic: DFCC makes statics nondeterministic */
   struct instr I = {0}; int len = -1;
   CHECK(str_to_instr(&I, L1, &len) == EXIT_SUCCESS && I.key == SKIP && len == (int)sizeof(L1) - 1, "section line skipped");
   CHECK(str_to_instr(&I, L2, &len) == EXIT_SUCCESS && I.key == SKIP && len == (int)sizeof(L2) - 2, "global line skipped (CR consumed, LF is the next empty line)");
